@@ -134,6 +134,7 @@ def run(db, rep, tier):
     carry_timestamp(db, rep)
     sniff_loop_shape(db, rep)
     iterator_protocol(db, rep)
+    writer_timestamp(db, rep)
     rep.rule("R9-writer-handles", "every PacketWriter constructor gives its pcap handle and dumper a value before anything reads them (the "
                                   "destructor closes whatever they hold): directly, or through the member it delegates to", 2)
     writer_handles(db, rep)
@@ -703,6 +704,36 @@ def writer_handles(db, rep):
         rep.analysis_broken("PacketWriter constructors not found")
 
 
+def writer_timestamp(db, rep):
+    """PacketWriter::write(Packet&): the packet's own timestamp reaches the record on EVERY path - no path hands the layer to
+    the overload that stamps it with the current time (a capture time of exactly 0.000000 is a capture time too)"""
+    ws = [f for fid, f in db.functions.items() if fid.startswith("Tins::PacketWriter::write(Tins::Packet &") and f.get("body")]
+    key = "PacketWriter::write(Packet&)"
+    if not ws:
+        rep.analysis_broken("PacketWriter::write(Packet&) vanished")
+        return
+    f = ws[0]
+    g = cfg.FnCFG(f)
+    timed, now = [], []
+    for c in facts.fn_nodes(f):
+        if c["k"] == "CXXMemberCallExpr" and c.get("cname") == "write" and c.get("callee"):
+            h = db.fn(c["callee"])
+            np_ = len((h or {}).get("params", ())) if h else len(c["c"]) - 1
+            if np_ >= 2:
+                timed.append(c)
+            elif "Packet" not in (c.get("callee") or ""):
+                now.append(c)
+    if now:
+        rep.violation("R6-carry-timestamp", key, facts.loc(f, now[0]),
+                      "a path through write(Packet&) hands the layer to write(PDU&), which stamps the record with the CURRENT time: the "
+                      "packet's own timestamp is lost for the packets that take it (e.g. a capture time of exactly 0.000000)")
+    elif timed and g.reaches_exit_avoiding((g.entry, -1), [g.pos(t_) for t_ in timed if g.pos(t_)], normal_only=True) is None and \
+            any(x["k"] == "CXXMemberCallExpr" and x.get("cname") == "timestamp" for x in facts.fn_nodes(f)):
+        rep.ok("R6-carry-timestamp", key, facts.loc(f, timed[0]), "every path writes the record with the packet's own timestamp")
+    else:
+        rep.violation("R6-carry-timestamp", key, facts.loc(f), "write(Packet&) does not write the record with the packet's timestamp on every path")
+
+
 def iterator_protocol(db, rep):
     """SnifferIterator: construction from a sniffer and both increments fetch a packet; running out of packets turns the
     iterator into the end iterator; equality is identity of the sniffer pointer; != is its negation"""
@@ -753,6 +784,13 @@ def iterator_protocol(db, rep):
             c = [x for x in facts.fn_nodes(f) if x["k"] == "CXXOperatorCallExpr" and x.get("op") == "++" and
                  x.get("callee") == ms["operator++/0"]["id"] and
                  any(y["k"] == "CXXThisExpr" for y in facts.walk(x["c"][1]))]
+        if nm == "operator++/1":
+            fetchers = [x for x in facts.fn_nodes(f) if x["k"] in ("CXXConstructExpr", "CXXTemporaryObjectExpr") and x.get("crec") == REC and
+                        x.get("c") and "BaseSniffer" in ((facts.ty(f, facts.strip_all(x["c"][0])) or {}).get("s") or "")]
+            if fetchers:
+                verdict(nm, f, False, "", "post-increment builds an iterator from the sniffer pointer - a constructor that itself fetches a "
+                                          "frame - on top of advancing: every `it++` consumes two frames and one of them is lost")
+                continue
         verdict(nm, f, bool(c) and gg.reaches_exit_avoiding((gg.entry, -1), [gg.pos(c[0])], normal_only=True) is None,
                 "%s advances" % what, "%s does not call advance(): the loop never moves to the next packet" % what)
     for nm, f in ms.items():
